@@ -15,7 +15,7 @@ EXPLANATION = ("Bounded symbolic execution (CrossHair/z3), inductive step: a cla
                "after the operation every instance reads exactly its own values.")
 RULE = "one case per (instances, attributes, assigned-mask, operation, target); non-trivial = at least one pair assigned before the operation"
 LIM = {"quick": dict(NI=2), "thorough": dict(NI=3)}
-OPS = ["create-instance", "assign", "augmented-assign", "read"]
+OPS = ["create-instance", "assign", "augmented-assign", "read", "discard-an-instance-then-create-one"]
 
 
 def bounds(tier):
@@ -90,6 +90,22 @@ def case(ni, na, mask, op, ti, ta, two):
     elif op == 2:
       _aug(objs[ti], ta, 5)
       model[(ti, ta)] = model.get((ti, ta), 0) + 5
+    elif op == 4:
+      # short-lived objects: instance ti goes away (CPython hands its memory to the next object), a new one is created in its place
+      import gc
+      for a in range(na):
+        model.pop((ti, a), None)
+      for rnd in range(12):
+        objs[ti] = None
+        gc.collect()
+        objs[ti] = Thing()
+        for a in range(na):
+          got = _read(objs[ti], a)
+          if got != 0:
+            return FAIL("new-instance-not-0", "%s: round %d: the new instance reads %s == %r before it was ever assigned" % (what, rnd, names[a], got))
+        if rnd < 11:
+          for a in range(na):
+            _assign(objs[ti], a, 90 + rnd)          # the next round discards an assigned instance
     else:
       got = _read(objs[ti], ta)
       if got != model.get((ti, ta), 0):
@@ -99,14 +115,14 @@ def case(ni, na, mask, op, ti, ta, two):
         want = model.get((i, a), 0) if i < ni else 0
         got = _read(objs[i], a)
         if got != want:
-          kind = "new-instance-not-0" if (op == 0 and i == ni - 1) else ("second-class-shares-value" if i >= ni else "value-shared-between-instances")
+          kind = "new-instance-not-0" if ((op == 0 and i == ni - 1) or (op == 4 and i == ti)) else ("second-class-shares-value" if i >= ni else "value-shared-between-instances")
           return FAIL(kind, "%s: instance %d.%s reads %r expected %r" % (what, i, names[a], got, want))
   except Exception as ex:
     return FAIL("raised:" + type(ex).__name__, "%s: %r" % (what, ex))
   return PASS(nontrivial=bool(mask))
 
 
-Family(globals(), "h_instances", params=[("ni", 1, 3), ("na", 1, 2), ("mask", 0, 63), ("op", 0, 3), ("ti", 0, 2), ("ta", 0, 1), ("two", 0, 1)],
+Family(globals(), "h_instances", params=[("ni", 1, 3), ("na", 1, 2), ("mask", 0, 63), ("op", 0, 4), ("ti", 0, 2), ("ta", 0, 1), ("two", 0, 1)],
        pre=pre, case=case, split=["ni", "na"], tiers=LIM)
 
 
